@@ -393,18 +393,17 @@ func runCrypto(c *Ctx, r *Reporter) {
 			accept := ""
 			for _, ret := range returnsOf(fn) {
 				for _, rv := range resultValues(ret, len(ret.Results)-1) {
-					if k, isConst := rv.(*ssa.Const); isConst && k.IsNil() {
-						// reached only through the loop: the block of the != test (loop body) reaches it, and the loop header dominates it
-						if !neq.Block().Dominates(ret.Block()) && !reachesBlock(neq.Block(), ret.Block()) {
-							accept = "a `return nil` that does not follow the loop over the outputs"
-						}
-						// and no path from the entry reaches it without passing the loop header (the range test)
-						if loopHeaderOf(neq.Block()) == nil || !loopHeaderOf(neq.Block()).Dominates(ret.Block()) {
-							accept = "a `return nil` that is reachable without entering the loop over the outputs"
-						}
+					if onlyNonNil(rv) {
 						continue
 					}
-					if onlyNonNil(rv) {
+					// a return that may accept (the nil constant, or the verdict of a further check handed on) lies
+					// behind the loop over all outputs: the loop header dominates it and it cannot get back into the loop
+					hdr := loopHeaderOf(neq.Block())
+					if hdr != nil && hdr != ret.Block() && hdr.Dominates(ret.Block()) && !reachesBlock(ret.Block(), hdr) {
+						continue
+					}
+					if k, isConst := rv.(*ssa.Const); isConst && k.IsNil() {
+						accept = "a `return nil` that does not follow the loop over the outputs (it lies inside the loop or is reachable without entering it)"
 						continue
 					}
 					accept = "a return of " + rv.String() + " (an acceptance decided outside the loop over all outputs)"
@@ -431,6 +430,72 @@ func runCrypto(c *Ctx, r *Reporter) {
 			}
 		}
 		r.Check(okM, q(fn)+"#match-gate", p.Rel(fn.Pos()), "match verification runs for every question isMatchQuestion classifies as a match question", "verifyMatch must run on the true edge of isMatchQuestion(): with another gate, questions with an explicit `verification: match` (or the default) would be accepted unverified")
+	}
+	// 7b. the marked set is examined as a whole: the loops of the three choice verifications look the marked set up
+	// by the index of each existing choice, so a letter beyond the last choice is never seen by them. Each of these
+	// functions therefore also ranges over the marked set or measures it (directly or in a callee it hands it to).
+	var walksMap func(v ssa.Value, depth int) bool
+	walksMap = func(v ssa.Value, depth int) bool {
+		refs := v.Referrers()
+		if refs == nil || depth > 2 {
+			return false
+		}
+		for _, ref := range *refs {
+			switch x := ref.(type) {
+			case *ssa.Range:
+				return true
+			case *ssa.MakeClosure: // captured by a range-over-func body or a literal
+				if cf, ok := x.Fn.(*ssa.Function); ok {
+					for i, bnd := range x.Bindings {
+						if bnd == v && i < len(cf.FreeVars) && walksMap(cf.FreeVars[i], depth) {
+							return true
+						}
+					}
+				}
+			case *ssa.Store: // kept in a variable cell that a closure shares
+				if x.Val == v {
+					if walksMap(x.Addr, depth) {
+						return true
+					}
+				}
+			case *ssa.UnOp: // load from such a cell
+				if x.Op == token.MUL && x.X == v && walksMap(x, depth) {
+					return true
+				}
+			case *ssa.Call:
+				if bi, ok := x.Call.Value.(*ssa.Builtin); ok && bi.Name() == "len" {
+					return true
+				}
+				if sc := x.Call.StaticCallee(); sc != nil && sc.Blocks != nil {
+					for i, a := range x.Call.Args {
+						if a == v && i < len(sc.Params) && walksMap(sc.Params[i], depth+1) {
+							return true
+						}
+					}
+				}
+			}
+		}
+		return false
+	}
+	for _, name := range []string{"(*QuestionModel).verifyChoiceMatch", "(*QuestionModel).verifyParseError", "(*QuestionModel).verifyNoParseError"} {
+		fn := get(name)
+		if fn == nil {
+			continue
+		}
+		var marked ssa.Value
+		for _, b := range fn.Blocks {
+			for _, ins := range b.Instrs {
+				if call, ok := ins.(*ssa.Call); ok && call.Call.StaticCallee() != nil && call.Call.StaticCallee().Name() == "correctAnswerIndices" {
+					marked = call
+				}
+			}
+		}
+		if marked == nil {
+			r.Undecided("%s does not call correctAnswerIndices", name)
+			continue
+		}
+		r.Check(walksMap(marked, 0), q(fn)+"#marked-set-examined-whole", p.Rel(fn.Pos()), "the marked set is ranged over or measured, so a mark without a choice is seen",
+			"the set of choices marked correct is only looked up by the index of the existing choices: a letter beyond the last choice (`answer: a, z` with three choices) is never examined and the question is accepted although the marked set is not the set of matching choices")
 	}
 	// 8. the answer state of a question is its front matter's Answer / SealedAnswer and nothing else: the fields of a
 	// front matter are written by Seal and Unseal only (decoding fills them by reflection). Anything else a reader
